@@ -58,10 +58,15 @@ func SingleBucket(name string, fs afero.Fs, metaFs afero.Fs, opts ...SingleOptio
 
 	objectFile := func(bucket, object string) string { return object }
 
+	// The modification-time resolution is measured with a scratch file. Everything
+	// in fs is an object of the bucket, so the scratch file goes to the metadata
+	// filesystem: created in fs it would overwrite and then delete an object that
+	// happens to have its name, show up in listings while it exists, and stay
+	// behind as an object if the process dies while measuring.
 	b := &SingleBucketBackend{
 		name:      name,
 		fs:        fs,
-		metaStore: newMetaStore(metaFs, fs, objectFile, modTimeFsCalc(fs)),
+		metaStore: newMetaStore(metaFs, fs, objectFile, modTimeFsCalc(metaFs)),
 	}
 	for _, opt := range opts {
 		if err := opt(b); err != nil {
